@@ -79,18 +79,23 @@ pub(crate) mod verif_kani {
 
     /// Bounded back-stop for the Verus proof of `resize` (which needs proof text spliced at anchors inside the body
     /// and is therefore undecided when those lines are edited): concrete (old, new) lengths around the 64-bit block
-    /// boundary, arbitrary old contents and fill value. Old bits below min(old, new) keep their value, fresh bits
-    /// take `initial_value`, the block count matches.
+    /// boundary, arbitrary old contents and fill value, under resize's precondition (stated and discharged in the
+    /// Verus unit: the stale bits beyond the old length equal the fill value - the tracker always passes `true`).
+    /// Old bits below min(old, new) keep their value, fresh bits take `initial_value`, the block count matches.
     fn resize_case(old: usize, new: usize) {
         let b0: u64 = kani::any();
         let b1: u64 = kani::any();
-        let mut m = if old <= 64 {
-            map_from_bits(old, b0)
+        let fill: bool = kani::any();
+        let stale = |live: u64| if fill { !live } else { 0 };
+        let mut m = if old == 0 {
+            VacancyMap::new()
+        } else if old <= 64 {
+            let live = if old == 64 { u64::MAX } else { (1u64 << old) - 1 };
+            VacancyMap { blocks: vec![(b0 & live) | stale(live)], len_bits: old }
         } else {
             let live = (1u64 << (old - 64)) - 1;
-            VacancyMap { blocks: vec![b0, (b1 & live) | !live], len_bits: old }
+            VacancyMap { blocks: vec![b0, (b1 & live) | stale(live)], len_bits: old }
         };
-        let fill: bool = kani::any();
         m.resize(new, fill);
         assert!(m.len() == new, "C01.resize_len");
         assert!(m.blocks.len() == new.div_ceil(64), "C01.resize_block_count");
@@ -102,7 +107,7 @@ pub(crate) mod verif_kani {
     macro_rules! resize_inst {
         ($name:ident, $old:expr, $new:expr) => {
             #[kani::proof]
-            #[kani::unwind(4)]
+            #[kani::unwind(66)]
             fn $name() {
                 resize_case($old, $new);
             }
